@@ -1,5 +1,6 @@
 import FV.Props.Catalog
 import FV.IoArb
+import FV.IoRecvBad
 /-! # C10 — a receiver fed arbitrary bytes -/
 namespace FV.Props
 open FV
@@ -32,4 +33,41 @@ example : (recv (Ty.flex u32 L8).dict [.deliver 100] ⟨0, 64, 0, []⟩ [2,0,0,0
 /-- non-vacuity: the crafted FlexVec<u32,u8> image with a misplaced terminator (defect F18) is now a parse error -/
 example : (recv (Ty.flex u32 L8).dict [.deliver 2, .deliver 100] ⟨0, 24, 0, []⟩ [9,0,0,0, 7,0,0,0, 0,0,0,0]).1 =
     .parse ⟨.badAlign, 9⟩ := by decide
+
+/-- **C10 (a content error is final).** For every well-formed message type: bytes rejected with an error other than
+`InsufficientSize` are rejected with the same error whatever follows them, and each of their prefixes is either rejected with
+that same error or reported as `InsufficientSize`. "Malformed" is therefore a property of the bytes, not of how many of them
+have arrived: no chunking can turn a content error into an accepted message, into a different error, or — once the bytes are
+all there — into a request for more input. -/
+theorem C10_content_error_is_final (t : Ty) (h : t.WF) (a : Nat) (m : Bytes) (e : Err)
+    (hv : t.dict.validate ⟨a, m⟩ = .err e) (hh : e.kind ≠ .insufficientSize) :
+    (∀ sfx, t.dict.validate ⟨a, m ++ sfx⟩ = .err e) ∧
+    (∀ k, k ≤ m.length → t.dict.validate ⟨a, m.take k⟩ = .err e ∨ ∃ p, t.dict.validate ⟨a, m.take k⟩ = .err ⟨.insufficientSize, p⟩) :=
+  hard_final t h a m e hv hh
+
+/-- **C10 (the stream continues with a complete but malformed message).** For every well-formed message type, every sequence
+of valid messages, every byte string `bad` that validation rejects with a content error `e`, anything after it, and every
+script of positive read sizes long enough to bring in `bad`: the receive loop (receive, drop the guard, repeat) yields the valid
+messages in order and then the parse error `e` — it never asks for input beyond `bad`, never reports `OutOfMemory` (buffer at
+least twice the longest item), never faults. -/
+theorem C10_stream_goes_bad (t : Ty) (h : t.WF) (hmin : 0 < t.dict.minSize) (msgs : List Bytes)
+    (hmsgs : ∀ m ∈ msgs, ∀ a, a % t.dict.align = 0 → t.dict.validate ⟨a, m⟩ = .ok () ∧ t.dict.size ⟨a, m⟩ = .ok m.length)
+    (bad : Bytes) (e : Err) (hh : e.kind ≠ .insufficientSize)
+    (hbad : ∀ a, a % t.dict.align = 0 → t.dict.validate ⟨a, bad⟩ = .err e)
+    (tl : Bytes) (base cap : Nat) (hbase : base % t.dict.align = 0) (hfit : ∀ m ∈ msgs, 2 * m.length ≤ cap)
+    (hfitb : 2 * bad.length ≤ cap)
+    (evs : List ReadEv) (hevs : Covers evs ((flat msgs).length + bad.length)) :
+    recvLoop t.dict (msgs.length + 1) evs ⟨base, cap, 0, []⟩ (flat msgs ++ (bad ++ tl)) = msgs.map .msg ++ [.parse e] :=
+  FV.C10_stream_goes_bad t h hmin msgs hmsgs bad e hh hbad tl base cap hbase hfit hfitb evs hevs
+
+/-- non-vacuity: `FlatVec<bool, u8>`; `[1, 5]` announces one element which is not a bool: the hypothesis on `bad` holds at every
+address … -/
+example : ∀ a, a % (Ty.vec .bool L8).dict.align = 0 → (Ty.vec .bool L8).dict.validate ⟨a, [1, 5]⟩ = .err ⟨.invalidData, 1⟩ := by
+  intro a _
+  simp [Dict.validate, checkAlignMin, Ty.dict, vecD, boolD, L8, Nat.mod_one, Slice.len, LenTy.readU, vecSlots, Dict.ssize,
+    floorMul, vecElems, Slice.dropU, Slice.takeU, Slice.drop, Slice.take, leNat, LenTy.max, Res.offset]
+
+/-- … and the loop on `[1,1] ++ [1,5] ++ [9,9]` in chunks of 1, 2, 3 bytes gives the message, then the parse error -/
+example : recvLoop (Ty.vec .bool L8).dict 2 [.deliver 1, .deliver 2, .deliver 3] ⟨0, 8, 0, []⟩ ([1,1] ++ ([1,5] ++ [9,9])) =
+    [.msg [1,1], .parse ⟨.invalidData, 1⟩] := by decide +kernel
 end FV.Props
